@@ -1139,6 +1139,10 @@ class Process(StateMachine, persistence.Savable, metaclass=ProcessStateMachineMe
             # Already paused
             return True
 
+        if self._pausing is not None and self._pausing.cancelled():
+            # The pending pause was withdrawn by cancelling the future that was handed out for it: a new request
+            self._pausing = None
+
         if self._pausing is not None:
             # Already pausing
             return self._pausing
